@@ -144,6 +144,17 @@ func c19Run(line string) string {
 }
 
 func c19Gen(r *vhRng) string {
+	if len(c19Queue) > 0 { // the remaining permutations of a merge-point case
+		l := c19Queue[0]
+		c19Queue = c19Queue[1:]
+		return l
+	}
+	if r.Chance(1, 40) {
+		c19Queue = c19GenMerge(r)
+		l := c19Queue[0]
+		c19Queue = c19Queue[1:]
+		return l
+	}
 	if r.Chance(1, 20) {
 		return c19GenVCL(r)
 	}
